@@ -420,3 +420,22 @@ Example redis_url_example :
                        up_host := s2b "127.0.0.1:6379"; up_user := s2b "pw" |}
   = Some {| ru_host := s2b "127.0.0.1:6379"; ru_password := s2b "pw"; ru_db := 15 |}.
 Proof. vm_compute. reflexivity. Qed.
+
+(* ---- lists of hook configurations: start-up goes through iff EVERY entry builds - an unknown name or
+   out-of-range options anywhere in the list refuse the whole list, wherever the entry stands *)
+Theorem hook_list_built_iff l :
+  hooks_from_configs l = Built <-> Forall (fun x : bytes * hook_opts => new_hook (fst x) (snd x) = Built) l.
+Proof.
+  induction l as [|[n o] l IH]; cbn [hooks_from_configs].
+  - split; [constructor|reflexivity].
+  - destruct (new_hook n o) eqn:E.
+    + rewrite IH. split; [intros H; constructor; [exact E|exact H]|intros H; inversion H; assumption].
+    + split; [discriminate|]. intros H. inversion H as [|x l' Hx Hl]. cbn in Hx. congruence.
+    + split; [discriminate|]. intros H. inversion H as [|x l' Hx Hl]. cbn in Hx. congruence.
+Qed.
+
+Corollary hook_list_bad_entry_refuses l1 n o l2 :
+  new_hook n o <> Built -> hooks_from_configs (l1 ++ (n, o) :: l2) <> Built.
+Proof.
+  intros Hb H. apply hook_list_built_iff in H. apply Forall_app in H as [_ H]. inversion H as [|x l' Hx Hl]. cbn in Hx. contradiction.
+Qed.
